@@ -10,6 +10,7 @@ mod c18;
 mod certs;
 mod clients;
 mod peer;
+mod wireurl;
 
 pub const FLAVOUR: &str = if cfg!(feature = "flavour_rustls") { "rustls" } else { "native-tls" };
 
@@ -35,6 +36,7 @@ fn main() {
         "C11" => c11::run(&ctx),
         "C12" => c12::run(&ctx),
         "C18" => c18::run(&ctx),
+        "C14" => wireurl::run_child(&ctx),
         other => {
             eprintln!("MACHINERY-ERROR unknown check {}", other);
             std::process::exit(2)
